@@ -1,7 +1,7 @@
 //vf:pkg github.com/saucelabs/forwarder/header
 package header
 
-//vf:assume C16-apply: header names are a-b/abc/xyz and prefixes a/a-/ab/x, each letter in symbolic case (solver-decided); field values are distinct concrete strings; maps of <=2 keys, lists of <=2 rules (thorough: <=3 rules when the map has one key; 3 rules over 2 keys did not finish in 25 minutes and is outside)
+//vf:assume C16-apply: header names are a-b/abc/xyz/ab and prefixes a/a-/ab/x, each letter in symbolic case (solver-decided); field values are distinct concrete strings; maps of <=2 keys, lists of <=2 rules (thorough: <=3 rules when the map has one key; 3 rules over 2 keys did not finish in 25 minutes and is outside)
 //vf:assume C16-apply: per case-insensitive name the multiset of values is compared; the value order and the key spelling only when a single spelling of that name is present
 
 import (
@@ -11,7 +11,7 @@ import (
 	"github.com/saucelabs/forwarder/internal/vfrt"
 )
 
-var vfNamePool = []string{"a-b", "abc", "xyz"}
+var vfNamePool = []string{"a-b", "abc", "xyz", "ab"} // "ab" is a proper prefix of "abc": -ab must not behave like -ab*
 var vfPrefixPool = []string{"a", "a-", "ab", "x"}
 
 // vfName returns a pool entry with symbolic letter case (one solver Bool per letter).
